@@ -80,3 +80,34 @@ package emulated
 //@   props C12
 //@   requires f != nil && a != nil
 //@   ensures @below-modulus !old(a.modReduced) ==> evalL(a.Limbs) <= emod(f.fParams) - 1
+
+// ---- subtraction. The padding is k*p with every limb above the subtrahend's bound: assumed here (big-integer
+// recomposition / decomposition loops are not under contract); what is verified is that sub takes the padding
+// computed for exactly its own limb count and the subtrahend's overflow, uses every limb of it, and forms
+// pad[i] + a[i] - b[i] limb by limb.
+//@ spec func padMultiple(pad []*Int, bits int, modulus int) bool
+//@ contract max
+//@   trusted "the package's generic maximum of its arguments (stated for up to three)"
+//@   pure
+//@   ensures len(a) == 2 ==> result == (a[0] >= a[1] ? a[0] : a[1])
+//@   ensures len(a) == 3 ==> result == (a[0] >= a[1] ? (a[0] >= a[2] ? a[0] : a[2]) : (a[1] >= a[2] ? a[1] : a[2]))
+//@ contract subPadding
+//@   trusted "not verified: next power of two above the bound per limb, minus its residue, recomposed and decomposed with math/big"
+//@   pure
+//@   ensures @len len(result) >= nbLimbs && (imul(nbLimbs, bitsPerLimbs) >= imul(len(result), bitsPerLimbs) ==> len(result) == nbLimbs) && fresh(result)
+//@   ensures @live forall k int :: 0 <= k && k < len(result) ==> result[k] != nil && allocated(result[k]) && fresh(result[k])
+//@   ensures @dominates forall k int :: 0 <= k && k < len(result) ==> *result[k] >= pow2(overflow + bitsPerLimbs)
+//@   ensures @multiple padMultiple(result, bitsPerLimbs, *modulus)
+//@ contract (*Field).constantValue
+//@   trusted "recomposes the constant limbs, if all are constants"
+//@   pure
+//@   ensures result.1 ==> result.0 != nil && fresh(result.0) && allocated(result.0)
+//@ contract (*Field).sub
+//@   props C12
+//@   assigns *f.api
+//@   requires f != nil && f.api != nil && a != nil && b != nil
+//@   ensures @pad-for-this-shape !(aConst && bConst) ==> padMultiple(padLimbs, bpl(fp), emod(fp)) && len(padLimbs) >= nbLimbs && nbLimbs >= len(a.Limbs) && nbLimbs >= len(b.Limbs)
+//@   ensures @pad-dominates !(aConst && bConst) ==> forall k int :: 0 <= k && k < nbLimbs ==> *padLimbs[k] >= pow2(b.overflow + bpl(fp))
+//@   ensures @limbwise !(aConst && bConst) ==> len(result.Limbs) == nbLimbs && forall k int :: 0 <= k && k < nbLimbs ==> den(result.Limbs[k]) == fsub(fadd(ofInt(*padLimbs[k]), (k < len(a.Limbs) ? den(a.Limbs[k]) : f0)), (k < len(b.Limbs) ? den(b.Limbs[k]) : f0))
+//@   loop 1 invariant @limbs len(limbs) == nbLimbs && fresh(limbs) && len(padLimbs) >= nbLimbs && forall k int :: 0 <= k && k <= rangeindex ==> den(limbs[k]) == fsub(fadd(ofInt(*padLimbs[k]), (k < len(a.Limbs) ? den(a.Limbs[k]) : f0)), (k < len(b.Limbs) ? den(b.Limbs[k]) : f0))
+//@   loop 1 invariant @pad forall k int :: 0 <= k && k < len(padLimbs) ==> padLimbs[k] != nil && *padLimbs[k] >= pow2(b.overflow + bpl(fp))
